@@ -729,15 +729,25 @@ func (c *SpecCtx) call(x *ECall) Val {
 		}
 		return Val{T: fmt.Sprintf("(%s %s)", f, strings.Join(ts, " ")), Ty: rt}
 	}
-	// method on a bound value, or qualified external function: uninterpreted "purefn" application
-	if i := strings.LastIndex(x.Fun, "."); i > 0 {
-		recvName, meth := x.Fun[:i], x.Fun[i+1:]
+	// method on a value, or qualified external function: uninterpreted "purefn" application
+	if i := strings.LastIndex(x.Fun, "."); i > 0 || x.Recv != nil {
+		recvName, meth := "", x.Fun
+		if x.Recv == nil {
+			recvName, meth = x.Fun[:i], x.Fun[i+1:]
+		}
 		k := 0
 		if j := strings.Index(meth, "$"); j >= 0 {
 			fmt.Sscanf(meth[j+1:], "%d", &k)
 			meth = meth[:j]
 		}
-		if rv, err := c.Eval(&EIdent{Name: recvName}); err == nil && !strings.Contains(recvName, ".") {
+		var rv Val
+		var err error
+		if x.Recv != nil {
+			rv, err = c.Eval(x.Recv)
+		} else {
+			rv, err = c.Eval(&EIdent{Name: recvName})
+		}
+		if err == nil && !strings.Contains(recvName, ".") {
 			obj, _, _ := types.LookupFieldOrMethod(rv.Ty, true, c.pkg, meth)
 			if f, ok := obj.(*types.Func); ok {
 				sig := f.Type().(*types.Signature)
@@ -839,6 +849,20 @@ func (c *SpecCtx) locs(e Expr) []Loc {
 			}
 			hh, hv := env.mapHeaps(mt)
 			return []Loc{{Heap: hh, Addr: v.T, MapRow: true}, {Heap: hv, Addr: v.T, MapRow: true}}
+		case "entriesOf":
+			// rows of every map stored in an array-typed location
+			a, t := c.addr(call.Args[0])
+			at, ok := t.Underlying().(*types.Array)
+			if !ok {
+				c.fail("entriesOf needs an array of maps")
+			}
+			mt, ok := at.Elem().Underlying().(*types.Map)
+			if !ok {
+				c.fail("entriesOf needs an array of maps")
+			}
+			hh, hv := env.mapHeaps(mt)
+			rh := c.p.heapIn(c.st, env.memHeap(at.Elem()))
+			return []Loc{{Heap: hh, RowsOf: a, RowsHeap: rh, RowsN: at.Len(), MapRow: true}, {Heap: hv, RowsOf: a, RowsHeap: rh, RowsN: at.Len(), MapRow: true}}
 		case "allof":
 			// every location of a heap sort: allof(int) etc. (used for arbitrary user code on its own objects)
 			t := c.resolveType(call.Args[0].String())
